@@ -412,6 +412,7 @@ def err_bound(node, R, mult=1.0):
         if v == 0:
             return (0.0 if k > 0 else 1.0), (e ** k if k > 0 else 0.0) + 1e-300
         r = abs(v) ** k if isinstance(k, float) else v ** k
+        _in_float_range(r)
         return r, abs(r) * (abs(k) * e / abs(v) + 1e-12)
     (va, ea), (vb, eb) = err_bound(node["a"], R, mult), err_bound(node["b"], R, mult)
     op = node["op"]
@@ -420,12 +421,23 @@ def err_bound(node, R, mult=1.0):
     if op == "sub":
         return va - vb, ea + eb
     if op == "mul":
+        if va != 0 and vb != 0:
+            _in_float_range(va * vb)
         return va * vb, ea * abs(vb) + eb * abs(va) + ea * eb
     if op == "div":
         if abs(vb) <= 1000 * eb:
             raise Skip("float_division_by_near_zero")
+        if va != 0:
+            _in_float_range(va / vb)
         return va / vb, ea / abs(vb) + abs(va) * eb / (vb * vb)
     return va - vb, ea + eb  # comparisons: the difference decides
+
+
+def _in_float_range(r):
+    """a non-zero intermediate that under- or overflows (1e-188 ** 2 == 0.0) changes what pint sees (a bare 0 is accepted next to any
+    dimension): outside the domain of the float tier"""
+    if r == 0 or not (1e-280 < abs(r) < 1e280):
+        raise Skip("float_range_underflow_or_overflow")
 
 
 def _close(a, b, tol=0.0):
